@@ -302,7 +302,17 @@ func scenarios(w string, r *simctl.Rand, thorough bool) []scenario {
 	return sc
 }
 
+// chunkFor draws a read-size history; one in eight is also a slow device
+// (some reads take seconds to hours of simulated time).
 func chunkFor(w string, r *simctl.Rand) ChunkSpec {
+	c := chunkFor0(w, r)
+	if r.Intn(8) == 0 {
+		c.Delay, c.DelaySec = 1+r.Intn(50), []int{1, 30, 600, 7200}[r.Intn(4)]
+	}
+	return c
+}
+
+func chunkFor0(w string, r *simctl.Rand) ChunkSpec {
 	B := Info(w).SampleBytes
 	if B == 0 {
 		B = 64
@@ -456,6 +466,28 @@ func Plan(prop, tier string, seed uint64) []RunConfig {
 					Runners: RunnerSpec{Mode: "scripted", Seed: r.Uint64()}, ReadYield: 1, Note: "transient-source-error"})
 			}
 		}
+		// arbitrary delays inside source reads and inside test runners (simulated
+		// time: the bubble's clock): minutes-long reads and tests change nothing
+		nslow := 6
+		if thorough {
+			nslow = 200
+		}
+		for _, w := range []string{WPeriodFast, WPowerOnFast, WFactoryFast} {
+			scs := scenarios(w, r, false)
+			for i := 0; i < nslow; i++ {
+				W := workerChoices[r.Intn(len(workerChoices))]
+				sp := scs[r.Intn(len(scs))].spec
+				ch := ChunkSpec{Kind: "full"}
+				if i%3 != 2 {
+					ch.Delay, ch.DelaySec = 1+r.Intn(7), []int{1, 30, 600, 7200}[r.Intn(4)]
+				}
+				if i%3 != 0 {
+					sp.SlowEvery, sp.SlowSec = 1+r.Intn(40), []int{2, 60, 900, 86400}[r.Intn(4)]
+				}
+				out = append(out, RunConfig{Prop: prop, Workflow: w, Workers: W, Policy: genPolicy(r, estSteps(w, W)),
+					Stream: prfStream(r), Chunk: ch, Fault: FaultSpec{Kind: "none"}, Runners: sp, ReadYield: 1, Note: "slow-device-and-slow-tests"})
+			}
+		}
 		// a polled device: small reads, every other Read returns (0, nil); more
 		// than a hundred empty reads accumulate within one sample
 		npoll := 4
@@ -486,7 +518,7 @@ func Plan(prop, tier string, seed uint64) []RunConfig {
 	case "C09":
 		// partial = data and a custom error in one Read; partialeof = the last
 		// data and io.EOF in one Read (iotest.DataErrReader, many devices)
-		kinds := []string{"eof", "ueof", "custom", "partial", "partialeof"}
+		kinds := []string{"eof", "ueof", "custom", "partial", "partialeof", "wrapeof", "temporary"}
 		for _, w := range AllWorkflows {
 			if w == WSingle {
 				continue
